@@ -327,6 +327,8 @@ def addressed_selection(ctx, rule='C07.R4', only=None):
 def run(ctx):
     from .configtime import derived_values as _derived
     _derived(ctx, 'C07.R1', ('Slicer', 'PlateSlicer', 'Plate'))
+    from .configtime import decisions_not_taken_on_display_values as _coarse
+    _coarse(ctx, 'C07.R1', ('Container', 'Plate', 'PlateSlicer', 'Recipe', 'RecipeStep'))
     # whatever the plate-level transfers compute themselves (a fail-early total, a pre-check) is unit-consistent
     from . import targets as _targets
     from .. import uscan as _uscan2
